@@ -151,6 +151,36 @@ pub fn seed_keys(name: &str) -> Vec<Key> {
             k[0] = 0x90;
             vec![k]
         }
+        // two values of 70 000 bytes (18 overflow pages each: more than fit the cell's 15
+        // pointers) and one of 61 381 bytes (16 pages), plus two small neighbours
+        "ovf2" => (0..5u8)
+            .map(|i| {
+                let mut k = [0x21u8; 32];
+                k[0] = 0x20 + i;
+                k
+            })
+            .collect(),
+        // 700 keys sharing 30 bytes (≈ 233 value leaves, two bottom branch nodes, the second one
+        // starting inside the cluster) followed by 60 keys with scattered prefixes: the second
+        // branch node holds prefix-compressed separators followed by uncompressed ones
+        "mixed2" => {
+            let mut v: Vec<Key> = (0..700u32)
+                .map(|i| {
+                    let mut k = [0x77u8; 32];
+                    k[30] = (i >> 8) as u8;
+                    k[31] = (i & 0xff) as u8;
+                    k
+                })
+                .collect();
+            let mut l = util::Lcg(0xBEEF);
+            for i in 0..60u32 {
+                let mut k = l.key();
+                k[0] = 0x80 + (i as u8) * 2;
+                v.push(k);
+            }
+            v.sort();
+            v
+        }
         _ => panic!("unknown seed {name}"),
     }
 }
@@ -160,6 +190,8 @@ fn seed_value(name: &str, idx: usize) -> Vec<u8> {
         "leaf" | "branch" => util::value(1000 + idx as u64, 1300),
         "bulk" => util::value(5000 + idx as u64, 1 + idx % 40),
         "ovf" => util::value(77, 5 * 1024 * 1024),
+        "ovf2" => util::value(300 + idx as u64, [70000usize, 70000, 61381, 5, 1300][idx]),
+        "mixed2" => util::value(2000 + idx as u64, 1300),
         _ => util::value(9000 + idx as u64, 1),
     }
 }
@@ -321,6 +353,8 @@ pub struct Exec {
     /// id of the overlay whose commit was the last commit (None otherwise)
     last_commit_overlay: Option<usize>,
     prepared: BTreeMap<usize, Prepared>,
+    /// sessions kept alive on this thread ("hold" / "release")
+    held: BTreeMap<usize, nomt::Session<B3>>,
     pub out: Outcome,
     pub trace: Vec<String>,
     /// a changeset whose base equals the current state only because intervening commits were
@@ -443,7 +477,22 @@ impl Exec {
             (k.as_str(), v.clone())
         };
         self.trace.push(name.to_string());
+        if !self.held.is_empty() && matches!(name, "c" | "cw" | "rb" | "ovc" | "fc" | "reopen") {
+            // a blocking writer waits for the session this very thread holds
+            return Ok(());
+        }
         match name {
+            "hold" => {
+                let id = arg.as_u64().unwrap() as usize;
+                let s = self.n().begin_session(SessionParams::default());
+                self.held.insert(id, s);
+                self.out.transitions += 1;
+            }
+            "release" => {
+                let id = arg.as_u64().unwrap() as usize;
+                self.held.remove(&id);
+                self.out.transitions += 1;
+            }
             "c" | "cn" | "cw" => {
                 let batch = decode_batch(&arg, &self.uni, tag);
                 let n = self.n.as_ref().unwrap();
@@ -489,7 +538,18 @@ impl Exec {
                         .map_err(|e| viol("commit-err", format!("op {idx}: commit failed: {e:#}")))?;
                 } else {
                     match fin.try_commit_nonblocking(n) {
+                        Ok(None) if !self.held.is_empty() => {
+                            return Err(viol(
+                                "nonblocking-not-deferred",
+                                format!("op {idx}: try_commit_nonblocking committed while another session is alive"),
+                            ))
+                        }
                         Ok(None) => {}
+                        Ok(Some(_)) if !self.held.is_empty() => {
+                            self.out.goals.push("nonblocking-deferred-ok");
+                            self.audit(&format!("after op {idx} (deferred non-blocking commit)"))?;
+                            return Ok(());
+                        }
                         Ok(Some(_)) => {
                             return Err(viol(
                                 "nonblocking-deferred",
@@ -517,6 +577,7 @@ impl Exec {
                 }
                 let newcfg = Cfg::from_json(&cfgv);
                 // live overlays and prepared changesets do not survive the handle
+                self.held.clear();
                 self.overlays.retain(|_, _| false);
                 self.prepared.clear();
                 self.last_commit_overlay = None;
@@ -759,6 +820,12 @@ impl Exec {
                 } else {
                     ov.try_commit_nonblocking(n)
                 };
+                if matches!(res, Ok(None)) && !self.held.is_empty() {
+                    return Err(viol(
+                        "nonblocking-not-deferred",
+                        format!("op {idx}: overlay try_commit_nonblocking committed while another session is alive"),
+                    ));
+                }
                 match res {
                     Ok(None) => {
                         if !(parent_ok && base_ok) {
@@ -776,6 +843,14 @@ impl Exec {
                         self.last_commit_overlay = Some(id);
                         self.out.goals.push("overlay-committed");
                         self.out.nontrivial = true;
+                    }
+                    Ok(None) if false => {}
+                    Ok(Some(back)) if !self.held.is_empty() => {
+                        // handed back: the overlay stays live, nothing changed
+                        self.overlays.get_mut(&id).unwrap().0 = Some(back);
+                        self.out.goals.push("nonblocking-deferred-ok");
+                        self.audit(&format!("after op {idx} (deferred non-blocking overlay commit)"))?;
+                        return Ok(());
                     }
                     Ok(Some(_)) => {
                         return Err(viol(
@@ -846,6 +921,12 @@ impl Exec {
                 } else {
                     fin.try_commit_nonblocking(n)
                 };
+                if matches!(res, Ok(None)) && !self.held.is_empty() {
+                    return Err(viol(
+                        "nonblocking-not-deferred",
+                        format!("op {idx}: try_commit_nonblocking committed while another session is alive"),
+                    ));
+                }
                 match res {
                     Ok(None) => {
                         if !base_ok {
@@ -862,6 +943,12 @@ impl Exec {
                         self.last_commit_overlay = None;
                         self.out.goals.push("prepared-committed");
                         self.out.nontrivial = true;
+                    }
+                    Ok(Some(back)) if !self.held.is_empty() => {
+                        self.prepared.get_mut(&id).unwrap().fin = Some(back);
+                        self.out.goals.push("nonblocking-deferred-ok");
+                        self.audit(&format!("after op {idx} (deferred non-blocking commit)"))?;
+                        return Ok(());
                     }
                     Ok(Some(_)) => {
                         return Err(viol(
@@ -1041,6 +1128,7 @@ impl HistX {
             overlays: BTreeMap::new(),
             last_commit_overlay: None,
             prepared: BTreeMap::new(),
+            held: BTreeMap::new(),
             out: Outcome::default(),
             trace: vec![],
             aba_accepted: false,
@@ -1107,6 +1195,7 @@ impl Exec {
 
     /// Drop every handle and produce the outcome.
     pub fn finish(mut self, r: Result<(), Violation>) -> Outcome {
+        self.held.clear();
         self.overlays.clear();
         self.prepared.clear();
         let digest = self.state_digest();
